@@ -23,7 +23,7 @@ CHECKS = {
 }
 
 # properties whose checks are registered (theorems proved, check green on the unchanged tree)
-READY = {'C16', 'C12', 'C06', 'C13', 'C14', 'C20', 'C08', 'C03', 'C01', 'C19', 'C05', 'C07', 'C15', 'C17', 'C09', 'C04', 'C02', 'C10'}
+READY = {'C16', 'C12', 'C06', 'C13', 'C14', 'C20', 'C08', 'C03', 'C01', 'C19', 'C05', 'C07', 'C15', 'C17', 'C09', 'C04', 'C02', 'C10', 'C11'}
 
 CHECKS['C12'] = (
     'Lean 4 theorems: round trip parse(encodeOps ops) = annotate ops for every well-formed operation sequence (any length, nesting depth, '
@@ -180,6 +180,16 @@ CHECKS['C10'] = (
     'answer refinement is proved for cuAt/cuCont/top/die/refaddr/lp/secIdx/symByName/seek; children/parent/iterator answers, siblings/ref/pubname ops, random_access_eq_sequential, the CFI entry cache, '
     'abbrev cache and line-program header contents are exploration/correspondence only. Known finding lineprogram-define-file-header (get_entries mutates the header). Invalid get_CU_at offsets poison the cache by design (out of scope).',
     'DESIGN.md §6 C10')
+
+CHECKS['C11'] = (
+    'Lean 4 theorems at the section-table level: get_dwarf_info\'s view equals the logical content for any per-section mix of plain / gABI-compressed / .zdebug storage (view_of_content) '
+    'and its corollaries (plain = gABI = zdebug); debug link followed iff the CRC matches (target\'s view), bad CRC rejected; declared != inflated size rejected on both compression paths; '
+    'has_dwarf_info iff a debug-info section in either naming exists (or, non-strictly, .eh_frame); supplementary link parsing; regenerated name tuple / structs / constants tied to the Spec; '
+    'correspondence: shipped and synthesized payloads re-wrapped under every transform x class x byte order x zlib level, full DIE/line/CFI dumps compared across wrappings',
+    'Proof of the container-invariance of the view with zlib and CRC-32 as parameters (one assumption: decompress(deflate x, k) = x resp. its k-byte prefix); partial by nature for the real zlib/CRC.',
+    'Not proved: bytes -> section table composition (C01\'s theorems can now supply it), relocations on compressed sections, the single theorem combining a supplementary file with compression; '
+    'zlib chunk independence / CRC chunking and the invariance of DIE/line/CFI dumps through the DWARF layers are checked empirically.',
+    'DESIGN.md §6 C11')
 
 NOT_YET = {
 }
